@@ -16,8 +16,37 @@ HAVING = {"none": ("", ""), "alias": ("{a0} > 1", "{a0}>1"), "agg": ("max(w) >= 
 WITH = {"none": ("", "", 0, 0), "ts": ("TIMESTAMP='ts', TIMEUNIT='ms'", "ts", 1000, 0), "tsmoo": ("TIMESTAMP='evt', TIMEUNIT='ms', MAXOUTOFORDERNESS='2s'", "evt", 1000, 2000)}
 ORDER = {"none": ("", []), "one": ("{a0} DESC", ["{a0}:DESC"]), "two": ("{a0} ASC, {a1} DESC", ["{a0}:ASC", "{a1}:DESC"]),
          "descbare": ("{a0} DESC, {a1}", ["{a0}:DESC", "{a1}:ASC"]), "barefirst": ("{a0}, {a1} DESC", ["{a0}:ASC", "{a1}:DESC"])}
-JOIN = {"none": ("", []), "inner": ("JOIN meta m ON k = m.k", ["meta|m|INNER|k=k"]), "left": ("LEFT JOIN meta m ON k = m.k AND t = m.tenant", ["meta|m|LEFT|k=k&t=tenant"])}
-KEYWORDS = ["SELECT", "DISTINCT", "FROM", "WHERE", "GROUP BY", "HAVING", "WITH", "ORDER BY", "LIMIT", "AND", "OR", "AS", "JOIN", "LEFT", "ON", "DESC", "ASC", "GLOBAL WINDOW TRIGGER WHEN"]
+JOIN = {"none": ("", []), "inner": ("JOIN meta m ON k = m.k", ["meta|m|INNER|k=k"]), "left": ("LEFT JOIN meta m ON k = m.k AND t = m.tenant", ["meta|m|LEFT|k=k&t=tenant"]),
+        # the stream under an alias, ON keys qualified by the aliases with nested paths behind them (the alias is cut off, the path stays)
+        "aliasnested": ("s JOIN meta m ON s.device.id = m.profile.id AND dev.k2 = m.k2", ["meta|m|INNER|device.id=profile.id&dev.k2=k2"]),
+        "aliasflat": ("s LEFT JOIN meta AS m ON s.k = m.k", ["meta|m|LEFT|k=k"])}
+# MATCH_RECOGNIZE sub-clauses (spec/sem/MrGrammar.tla): text and the part of MatchRecognizeSpec it must produce
+MR_PART = {"none": ("", []), "one": ("PARTITION BY g ", ["g"]), "two": ("PARTITION BY g, `site id` ", ["g", "site id"])}
+MR_ROWS = {"default": ("", 0), "one": ("ONE ROW PER MATCH ", 0), "all": ("ALL ROWS PER MATCH ", 1)}
+MR_SKIP = {"default": ("", 0, ""), "past": ("AFTER MATCH SKIP PAST LAST ROW ", 0, ""), "next": ("AFTER MATCH SKIP TO NEXT ROW ", 1, ""),
+           "first": ("AFTER MATCH SKIP TO FIRST B ", 2, "B"), "last": ("AFTER MATCH SKIP TO LAST B ", 3, "B")}
+MR_WITHIN = {"none": ("", 0), "quoted": ("WITHIN '5s' ", 5 * 10**6), "quotedfrac": ("WITHIN '1.5s' ", 1500000), "intsec": ("WITHIN 5 SECONDS ", 5 * 10**6),
+             "fracsec": ("WITHIN 1.5 SECONDS ", 1500000), "fracmin": ("WITHIN 0.5 MINUTES ", 30 * 10**6), "ms": ("WITHIN 250 MS ", 250000), "fracms": ("WITHIN 2.5 ms ", 2500),
+             "hours": ("WITHIN 2 HOURS ", 7200 * 10**6), "fracshort": ("WITHIN 0.25 h ", 900 * 10**6)}
+MR_PAT = {"seq": ("A B", 2), "quant": ("A{2,} B?", 2), "alt": ("A (B | C)+", 3)}
+MR_DEF = {2: "A AS v > 0, B AS v < 0", 3: "A AS v > 0, B AS v < 0, C AS v = 0"}
+MR_SUBSET = {"none": ("", 0), "one": ("SUBSET S = (A, B) ", 1)}
+
+
+def build_mr(o):
+    pt, pexp = MR_PART[o["part"]]
+    rt, rexp = MR_ROWS[o["rows"]]
+    st, sexp, ssym = MR_SKIP[o["skip"]]
+    wt, wexp = MR_WITHIN[o["within"]]
+    pat, ndef = MR_PAT[o["pat"]]
+    sub, nsub = MR_SUBSET[o["subset"]]
+    txt = ("SELECT * FROM stream MATCH_RECOGNIZE (%sORDER BY ts MEASURES MATCH_NUMBER() AS mn, LAST(id) AS li %s%sPATTERN (%s) %s%sDEFINE %s)"
+           % (pt, rt, st, pat, sub, wt, MR_DEF[ndef]))
+    exp = {"order": [], "limit": 0, "mr_within_us": wexp, "mr_skip": sexp, "mr_rows": rexp, "mr_sym": ssym, "mr_part": pexp, "mr_ndef": ndef, "mr_nmeas": 2, "mr_nsub": nsub}
+    return txt, exp
+KEYWORDS = ["SELECT", "DISTINCT", "FROM", "WHERE", "GROUP BY", "HAVING", "WITH", "ORDER BY", "LIMIT", "AND", "OR", "AS", "JOIN", "LEFT", "ON", "DESC", "ASC", "GLOBAL WINDOW TRIGGER WHEN",
+            "MATCH_RECOGNIZE", "PARTITION BY", "MEASURES", "ONE ROW PER MATCH", "ALL ROWS PER MATCH", "AFTER MATCH SKIP PAST LAST ROW", "AFTER MATCH SKIP TO NEXT ROW", "AFTER MATCH SKIP TO FIRST",
+            "AFTER MATCH SKIP TO LAST", "PATTERN", "SUBSET", "WITHIN", "DEFINE", "SECONDS", "MINUTES", "HOURS", "MS", "MATCH_NUMBER", "LAST"]
 
 
 def build(o):
@@ -58,10 +87,10 @@ def build(o):
 
 def relayout(txt, rng, style):
     """keyword case and inter-token whitespace / line breaks; string literals are left alone"""
-    parts = re.split(r"('[^']*')", txt)
+    parts = re.split(r"('[^']*'|`[^`]*`)", txt)
     out = []
     for p in parts:
-        if p.startswith("'"):
+        if p.startswith("'") or p.startswith("`"):
             out.append(p); continue
         for kw in KEYWORDS:
             def rep(m):
@@ -96,6 +125,16 @@ def run(tier):
     styles = [("upper", "plain"), ("lower", "wide"), ("mixed", "tight")] if quick else [(c, w) for c in ("upper", "lower", "mixed") for w in ("plain", "wide", "tight")]
     for o in opts:
         txt, exp = build(o)
+        scen.append({"meta": {"mode": "grammar", "exp": exp, "opts": o}, "texts": [relayout(txt, rng, st) for st in styles]})
+    r2 = vlib.tlc(seqfam.SEM, "MrGrammar", cfg, workers=1, timeout=900)
+    if not r2["ok"]:
+        raise vlib.Inconclusive("MrGrammar enumeration failed:\n" + r2["out"][-2000:])
+    res.add_model("MrGrammar", r2, {"subclauses": 6})
+    mropts = [json.loads(x[1]) for x in vlib.prints(r2["out"], "SCEN")]
+    if quick and len(mropts) > 600:
+        mropts = rng.sample(mropts, 600)
+    for o in mropts:
+        txt, exp = build_mr(o)
         scen.append({"meta": {"mode": "grammar", "exp": exp, "opts": o}, "texts": [relayout(txt, rng, st) for st in styles]})
     ngr = len(scen)
     # totality: every token sequence up to length L, seeded long sequences, truncations and byte mutations of valid statements
